@@ -48,9 +48,11 @@ def _int_lexer_justified(prog, f):
             convs.append(full.strip())
     if not convs:
         return False, "no integer conversion found"
-    bad = [x for x in convs if "parse::<i64>" not in x or "from_str_radix" in x]
+    import re as _re
+    bad = [x for x in convs if "from_str_radix" in x
+           or not _re.search(r"parse::<[iu](8|16|32|64|128|size)>", x)]
     if bad:
-        return False, "the literal is converted with %s, not the decimal str::parse::<i64>" % bad[0].split(" ")[0]
+        return False, "the literal is converted with %s, not a decimal str::parse of an integer type" % bad[0].split(" ")[0]
     for c in prog.callers_of(f.path):
         g = c.fn
         guarded = False
